@@ -19,8 +19,11 @@ import (
 
 // C17 — resample.Resample / resample.ToInterval.
 //
-//	rs <df> <line> <N>      => D m d0 … dm-1 <result>
-//	iv <df> <line> <dbits>  => D m d0 … dm-1 <result>
+//	rs <df> <line> <N>      => D m d0 … dm-1 <result> ; B <reuse>
+//	iv <df> <line> <dbits>  => D m d0 … dm-1 <result> ; B <reuse>
+//	conc <G> <rounds> <k> (<op> <df> <line> <arg>)*k => … ; C …   (c17_state.go)
+//
+// `; B …` reports the repetitions of the call out of one reused vertex buffer (c17_state.go).
 //
 // <df> is pl (planar.Distance) or geo (geo.Distance); <line> is nLS | LS n (x y)*;
 // the outcome starts with the segment distances the real df returns for the line
@@ -56,6 +59,14 @@ func init() {
 			fmt.Println("hang")
 			os.Exit(0)
 		})
+		if strings.HasPrefix(v, "@") { // a case too long for the environment: the name of a file that holds it
+			data, err := os.ReadFile(v[1:])
+			if err != nil {
+				fmt.Println("noprobe")
+				os.Exit(0)
+			}
+			v = string(data)
+		}
 		f := strings.Fields(v)
 		fmt.Println(c17Call(f[0], f[1:]))
 		os.Exit(0)
@@ -99,6 +110,9 @@ func c17Call(op string, in []string) string {
 }
 
 func runC17(op string, in []string) string {
+	if op == "conc" {
+		return guard(func() string { return runC17Conc(in) })
+	}
 	r := &tokReader{t: in}
 	dfName := r.next()
 	df := c17DF(dfName)
@@ -140,13 +154,19 @@ func runC17(op string, in []string) string {
 		}
 	}
 	if points > 1e6 {
-		return sb.String() + " toobig"
+		return sb.String() + " toobig ; B none"
 	}
 	risky := len(ls) >= 2 && !allEqual && !(total > 0 && total <= math.MaxFloat64)
 	if !risky {
-		return sb.String() + " " + c17Call(op, in)
+		// the fresh call (a freshly made slice, used once), then the same call again and again out
+		// of ONE reused vertex buffer whose contents change in between (c17_state.go)
+		a := c17ParseArgs(op, &tokReader{t: in})
+		out, pan := c17Do(a, a.ls, df)
+		want := c17Snap(out, pan)
+		res := c17Show(out, pan)
+		return sb.String() + " " + res + " ; " + guard(func() string { return c17Reuse(c17ParseArgs(op, &tokReader{t: in}), want) })
 	}
-	return sb.String() + " " + c17Probe(op, in)
+	return sb.String() + " " + c17Probe(op, in) + " ; B none"
 }
 
 // c17Probe runs one case in a child process under the watchdog; a probe that does not
@@ -158,10 +178,23 @@ func c17Probe(op string, in []string) string {
 		return "noprobe"
 	}
 	res := "hang"
+	payload := op + " " + strings.Join(in, " ")
+	if len(payload) > 60000 {
+		// one environment string is limited to 128 KiB (a line of more than ~3500 vertices does
+		// not fit: exec fails and the probe would be reported as `hang`): hand the case over in a file
+		f, err := os.CreateTemp("", "c17probe")
+		if err != nil {
+			return "noprobe"
+		}
+		f.WriteString(payload)
+		f.Close()
+		defer os.Remove(f.Name())
+		payload = "@" + f.Name()
+	}
 	for attempt := 0; attempt < 2; attempt++ {
 		ctx, cancel := context.WithTimeout(context.Background(), 3*c17ProbeTimeout)
 		cmd := exec.CommandContext(ctx, exe)
-		cmd.Env = append(os.Environ(), c17ProbeEnv+"="+op+" "+strings.Join(in, " "))
+		cmd.Env = append(os.Environ(), c17ProbeEnv+"="+payload)
 		outb, _ := cmd.Output()
 		cancel()
 		res = strings.TrimSpace(string(outb))
@@ -592,11 +625,29 @@ func genC17(c *Ctx) {
 		}
 	}
 
+	// --- state / size outside one fresh call (c17_state.go), on EVERY shard: concurrent callers and
+	// huge lines (200..20000 vertices, up to 50000 points), so that every run has some of each
+	for i := 0; i < 2; i++ {
+		c17ConcCase(c)
+		c17HugeCase(c)
+	}
+
 	// --- random cases
 	longEvery := 400
 	for i := 0; i < c.Budget && !c.Exhausted(); i++ {
 		if r.Intn(longEvery) == 0 {
 			c17LongCase(c)
+			continue
+		}
+		switch k := r.Intn(3000); {
+		case k < 3:
+			c17HugeCase(c)
+			continue
+		case k < 5:
+			c17ConcCase(c)
+			continue
+		case k < 125:
+			c17MediumCase(c)
 			continue
 		}
 		n := 2 + r.Intn(7)
